@@ -1,26 +1,51 @@
 """C09 — peak- and trough-centred analyses are mirror images (pipeline model + metamorphic search)."""
 from harness import pipeline
-from harness.pipeline import COQ_HEADER, COQ_RUNNER, COQ_TYPES, SHARD, coq_case, kind_of, TRUST
+from harness.pipeline import COQ_HEADER, COQ_RUNNER, COQ_TYPES, SHARD, kind_of, extra_evidence, TRUST
 
 PROP = 'C09'
 PROPS_FILE = 'Props/C09.v'
-RULE = ('compute_features(sig, centre) and compute_features(-sig, other centre) on generated signals, both burst '
-        'methods; each table compared with the Coq pipeline model and the two tables compared with each other after the '
-        'documented swap (names, negated extremum voltages, 1 - symmetry); non-trivial = >= 3 rows and a label of each value')
-ASSUMPTIONS = ['signals finite', 'cases where the reference filter output is exactly 0 somewhere are counted (sign of zero is not mirrored)']
+RULE = ('compute_features(sig, centre) and compute_features(-sig, other centre) on generated signals (the wide C01 stream: '
+        'off-band / narrow / wide bands, non-integer fs, int64 samples, empty option dictionaries, option keys in random '
+        'order, detector filter_kwargs), both burst methods; the mirrored call is made whether or not the first one returned '
+        'a table, in half of the cases on the SAME ndarray object negated in place (np.negative(sig, out=sig), restored '
+        'afterwards); 35 % of the cases are preceded (and some interleaved) in the same process by 1-4 calls of the public '
+        'helpers of bycycle.utils.dataframes with every documented flag value on scratch tables (`history`). The first '
+        'table is compared with the Coq pipeline model and the two tables with each other after the documented swap '
+        '(names, negated extremum voltages, 1 - symmetry): sample indices, durations, burst features and labels identical, '
+        'voltages / symmetries within 1e-9; a table on one side and an exception on the other is a failure. The premises '
+        'of the mirror theorem (reference envelope and detector mask of -x equal those of x) are evaluated per case and '
+        'counted (mirror_premise_checked / _failed); a premise-failed case is kept out of the model comparison. '
+        'non-trivial = >= 3 rows, a label of each value and a mirrored table')
+ASSUMPTIONS = ['signals finite',
+               'premise of the mirror theorem: envelope and detector mask of the negated signal equal those of the signal '
+               '(checked per case, counted in the evidence)']
 
 
 def cases(rng, tier):
-    n = 110 if tier == 'quick' else 1100
-    return [pipeline.gen_case(rng, tier, extra={'want_mirror': True}) for _ in range(n)]
+    n = 140 if tier == 'quick' else 1400
+    out = []
+    for _ in range(n):
+        c = pipeline.gen_case(rng, tier, wide=True, amp_wide=True, extra={'want_mirror': True})
+        c['mirror_inplace'] = rng.random() < 0.5
+        if rng.random() < 0.35:
+            c['history'] = pipeline.gen_history(rng)
+        out.append(c)
+    # cases that carry their own history first: a failure caused by state that a history leaves behind is then reported
+    # (lowest index first) on a case that reproduces it when replayed alone in a fresh process
+    out.sort(key=lambda c: 0 if c.get('history') else 1)
+    return out
 
 
 run_impl = pipeline.run_pipe
 
 
-def oracle(c, o):
-    if 'ref' in o and o['ref'].get('nzero', 0) > 2 * o['ref'].get('padn', 0) + 2:
+def coq_case(c, o):
+    if pipeline.premise_failed(o):
         return None
+    return pipeline.coq_case(c, o)
+
+
+def oracle(c, o):
     return pipeline.oracle_mirror(c, o)
 
 
